@@ -40,3 +40,8 @@ Definition nulls_empty (a : listarr) : bool :=
                     || Nat.eqb (getn (buffer_outer_offsets a) i)
                                (getn (buffer_outer_offsets a) (S i)))
           (seq 0 (la_len a)).
+
+(* every outer offset is even: each element spans whole (x, y) pairs of the
+   interleaved values buffer *)
+Definition even_outer (a : listarr) : bool :=
+  forallb Nat.even (buffer_outer_offsets a).
